@@ -1392,9 +1392,12 @@ impl Runner {
                 tampered = true;
             }
         }
-        let src = ch_addr;
+        // one handshake in eight arrives from another port of the challenged host (a socket this node
+        // never challenged): it must have no effect, whoever produced it
+        let relocated = !late && rng.chance(1, 8);
+        let src = if relocated { SocketAddr::new(ch_addr.ip(), ch_addr.port() + 1 + rng.below(3) as u16) } else { ch_addr };
         let honest_signer = signer == pi && !ed_signer;
-        if honest_signer && !late && !matches!(variant, HsVariant::BadSignature | HsVariant::BadEphemeral | HsVariant::WrongStatic) {
+        if honest_signer && !late && !relocated && !matches!(variant, HsVariant::BadSignature | HsVariant::BadEphemeral | HsVariant::WrongStatic) {
             // the peer now shares these keys: it encrypts with the initiator key
             self.w.peers[pi].keys.push((ik, rk));
         }
@@ -1417,6 +1420,16 @@ impl Runner {
             self.w.peers[pi].keys.pop();
         }
         let n_late = self.steps.len();
+        if relocated {
+            self.w.hist.add("handshake:from_another_port_of_the_challenged_host");
+            self.inject(src, bytes, "relocated-handshake", signer, tampered, forged).await;
+            let acted = self.steps[n_late..].iter().any(|s| s.outs.iter().any(|o| matches!(o, AOut::Established(..) | AOut::Unverifiable(..) | AOut::Request(..) | AOut::Response(..))));
+            if acted {
+                self.w.failures.push(("C01".into(), "a handshake was accepted from a socket address that this node never challenged".into()));
+                self.w.failures.push(("C03".into(), "a handshake was accepted although no WHOAREYOU to exactly that source address was outstanding".into()));
+            }
+            return;
+        }
         self.inject(src, bytes, if late { "late-handshake" } else { "handshake" }, signer, tampered, forged).await;
         if late {
             // C03: answering after the challenge expired never creates or re-keys a session
